@@ -260,7 +260,14 @@ impl<'a> MG<'a> {
                     }
                 };
                 let ix = self.index(d - 1);
-                self.e(EK::Index(Box::new(b), vec![ix]))
+                let first = self.e(EK::Index(Box::new(b), vec![ix]));
+                // chains of index operators on a non-identifier base nest one at a time
+                let mut cur = first;
+                while self.r.chance(1, 3) {
+                    let ix = self.index(d - 1);
+                    cur = self.e(EK::Index(Box::new(cur), vec![ix]));
+                }
+                cur
             }
             _ => {
                 if self.r.chance(3, 5) {
@@ -541,12 +548,38 @@ impl<'a> MG<'a> {
                     self.s(SK::Barrier(ops))
                 }
                 20 => {
-                    let d = if self.r.bool() {
-                        let u = self.r.pick(&["ns", "us", "dt"]).to_string();
-                        let n = self.r.below(100).to_string();
-                        self.e(EK::Timing(n, u, false))
-                    } else {
-                        self.ident()
+                    let d = match self.r.below(if self.cfg.sem_safe { 4 } else { 8 }) {
+                        0 | 1 => {
+                            let u = self.r.pick(&["ns", "us", "dt"]).to_string();
+                            let n = self.r.below(100).to_string();
+                            self.e(EK::Timing(n, u, false))
+                        }
+                        2 | 3 => self.ident(),
+                        // designators that start with a float literal, or are arithmetic
+                        4 => {
+                            let u = self.r.pick(&["ns", "us", "ms", "s", "dt"]).to_string();
+                            let n = self.r.pick(&["1.5", "0.5", "2.", "1e3", "2.5e-1"]).to_string();
+                            self.e(EK::Timing(n, u, true))
+                        }
+                        5 => {
+                            let f = self.r.pick(&["2.5", "0.5", "1e1"]).to_string();
+                            let l = self.e(EK::Float(f));
+                            let r = self.ident();
+                            self.e(EK::Binary(BinOp::Mul, Box::new(l), Box::new(r)))
+                        }
+                        6 => {
+                            let l = self.ident();
+                            let u = self.r.pick(&["ns", "us", "dt"]).to_string();
+                            let r = self.e(EK::Timing("1.5".to_string(), u, true));
+                            self.e(EK::Binary(BinOp::Add, Box::new(l), Box::new(r)))
+                        }
+                        // (a bare float or bit string literal as the whole designator is rejected
+                        // on purpose - "Literal type designator must be an integer" - not demanded)
+                        _ => {
+                            let l = self.ident();
+                            let r = self.ident();
+                            self.e(EK::Binary(BinOp::Sub, Box::new(l), Box::new(r)))
+                        }
                     };
                     let q = self.operand();
                     self.s(SK::Delay(d, vec![q]))
